@@ -329,6 +329,12 @@ def handle (st : St) (line : String) : St × String :=
         | _ => (st, "bad-op")
       | _ => (st, "bad-op")
     | _, _ => (st, "bad-op")
+  | ["ln", t] =>
+    match parseCps t with
+    | some text =>
+      let ls := (strLines text).zipIdx.filter (fun p => !p.1.isEmpty)
+      (st, ("ok " ++ " ".intercalate (ls.map fun p => toString (p.2 + 1) ++ ":" ++ showCps p.1)).trimAsciiEnd.toString)
+    | none => (st, "bad-op")
   | "tp" :: r =>
     match st.tp, parsePairs r with
     | some T, some raw => ({ st with raw := raw }, showExcept showVal (T.parseRaw raw llFuel))
